@@ -60,6 +60,7 @@ func C02(c *core.Ctx) {
 		return
 	}
 	c02wrap(c, comps)
+	c02stalledRelease(c)
 	if c.HasViolation() || c.Expired() {
 		return
 	}
@@ -369,4 +370,124 @@ func c02late(c *core.Ctx) {
 			}
 		}
 	}
+}
+
+// c02stalledRelease: the hand-over at PUBREL time is held up (the subscriber stopped reading,
+// its ring is full) while the publisher goes on sending a ring's worth of other traffic; when
+// the subscriber reads again the PUBREL is answered by a PUBCOMP with ITS identifier and the
+// message arrives with the content of the original PUBLISH - whatever has passed through the
+// publisher's incoming ring meanwhile.  The same for a QoS 1 PUBLISH and its PUBACK.
+func c02stalledRelease(c *core.Ctx) {
+	if c.NShards > 1 && c.Shard != 5%c.NShards {
+		return
+	}
+	for _, q := range []byte{2, 1} {
+		for _, lead := range []int{0, 1, 4000} {
+			if c.Expired() || c.HasViolation() {
+				return
+			}
+			q, lead := q, lead
+			name := fmt.Sprintf("stalled hand-over: QoS %d exchange (identifier 0x0707) whose last packet ends %d bytes before the middle of the ring, subscriber stalled, then three 8192-byte segments", q, lead)
+			var viol string
+			body := func() {
+				t := newTD()
+				p := t.connect("P", 0, 65535, false)
+				f := t.connect("F", 0, 65535, false)
+				st := t.connect("S", 300, 65535, false)
+				if p == nil || f == nil || st == nil {
+					return
+				}
+				st.rc.Send(&refcodec.Packet{Type: refcodec.SUBSCRIBE, ID: 1, Topics: [][]byte{[]byte("t"), []byte("fill")}, QoSs: []byte{q, 0}})
+				t.settleExcept()
+				// S's outgoing ring is filled by F
+				for k := 0; k < 2; k++ {
+					f.rc.Send(bigPub("fill", 8000, byte(k)))
+					t.settleExcept()
+				}
+				// (16018 of 16384 bytes are taken; 359 more leave no room for the message)
+				f.rc.Send(bigPub("fill", 350, 9))
+				t.settleExcept()
+				// the packet that is being handed on while the subscriber stalls (the PUBREL, or the
+				// QoS 1 PUBLISH itself) ends `lead` bytes before the middle of P's incoming ring,
+				// and two segments of exactly one read block follow: whatever the receiver may
+				// overwrite, it can
+				payload := "the-original-" + big(900, 5)
+				pubWire := refcodec.Encode(&refcodec.Packet{Type: refcodec.PUBLISH, Topic: []byte("t"), QoS: q, ID: 0x0707, Payload: []byte(payload)})
+				exact := func(size int, salt byte) []byte {
+					// one QoS 0 PUBLISH on "nobody" of exactly size bytes (size >= 140)
+					return refcodec.Encode(&refcodec.Packet{Type: refcodec.PUBLISH, Topic: []byte("nobody"), Payload: []byte(big(size-11, salt))})
+				}
+				p.rc.AutoAck = false
+				end := 8192 - lead // where the packet in question ends
+				if q == 2 {
+					p.rc.Conn.Write(pubWire)
+					t.settleExcept()
+					p.rc.Conn.Write(exact(end-4-len(pubWire), 7))
+					t.settleExcept()
+					p.rc.Conn.Write(refcodec.Encode(&refcodec.Packet{Type: refcodec.PUBREL, ID: 0x0707}))
+				} else {
+					p.rc.Conn.Write(exact(end-len(pubWire), 7))
+					t.settleExcept()
+					p.rc.Conn.Write(pubWire)
+				}
+				t.settleExcept()
+				// P's processor is in the fan-out now (S has no room); P goes on sending
+				for k := 0; k < 3; k++ {
+					p.rc.Conn.Write(exact(8192, byte(0xaa)))
+					t.settleExcept()
+				}
+				// S reads again
+				st.noRead = false
+				for i := 0; i < 80; i++ {
+					t.settleExcept()
+				}
+				if t.badStream() {
+					return
+				}
+				var acks []string
+				for _, pk := range p.rc.Take() {
+					switch pk.Type {
+					case refcodec.PUBACK, refcodec.PUBREC, refcodec.PUBCOMP:
+						acks = append(acks, fmt.Sprintf("%s(%#04x)", refcodec.Name(pk.Type), pk.ID))
+					}
+				}
+				want := "PUBACK(0x0707)"
+				if q == 2 {
+					want = "PUBREC(0x0707) PUBCOMP(0x0707)"
+				}
+				if got := strings.Join(acks, " "); got != want {
+					vsched.Failf("acknowledgements to the publisher: %s, expected %s", got, want)
+					return
+				}
+				n := 0
+				for _, pk := range st.rc.Take() {
+					if pk.Type == refcodec.PUBLISH && string(pk.Topic) == "t" {
+						n++
+						if string(pk.Payload) != payload {
+							vsched.Failf("the message handed on differs from the original PUBLISH (%d bytes, begins %q)", len(pk.Payload), head(pk.Payload, 24))
+							return
+						}
+					}
+				}
+				if n != 1 {
+					vsched.Failf("the subscriber received the message %d times", n)
+				}
+			}
+			res := explore.RunDefault(body)
+			c.Rep.Executions++
+			c.Rep.States++
+			c.Rep.Transitions += int64(len(res.Points))
+			if res.Status == vsched.StCrash {
+				viol = "a library goroutine panicked: " + firstLine(res.Crash)
+			} else if len(res.Failures) > 0 {
+				viol = res.Failures[0]
+			}
+			if viol != "" {
+				if c.Violate("C02 stalled hand-over :: "+violClass(viol), core.Replay{Scenario: name, Message: viol}) {
+					return
+				}
+			}
+		}
+	}
+	c.Rep.Scenarios++
 }
